@@ -109,7 +109,8 @@ def select(tier, salt=0):
     return [r for n, r in enumerate(IDS) if r.startswith(("g1_", "g4_")) or (n + salt) % 5 == 0 or (r.startswith("g5_") and (n + salt) % 2 == 0) or r.startswith("g6_")]
 
 
-ARGPARSE_TYPES = ("int", "str", "bool", "float", "Optional[int]", "Optional[str]", "Optional[bool]", "List[str]", "Literal['np', 'tf']", "Optional[dict]")
+ARGPARSE_TYPES = ("int", "str", "bool", "float", "Optional[int]", "Optional[str]", "Optional[bool]", "List[str]", "Literal['np', 'tf']", "Optional[dict]",
+                  "Literal['', '.bak']", "Optional[Literal['utf-8', 'ascii']]")
 
 
 def argparse_expressible(rid):
